@@ -302,26 +302,30 @@ def run(ctx):
         ctx.count('systematic.executed')
     # ---- random part
     n_random = ctx.pick(1200, 25000)
-    rng = ctx.rng('random')
     depth = ctx.pick(4, 7)
     for n in range(n_random):
         if ctx.out_of_time():
             break
-        g = gen.ExprGen(rng, max_depth=depth, allow_params=False)
-        mt = gen.gen_table(rng, 't', max_rows=ctx.pick(8, 40))
-        from_expr = rng.random() < 0.2
-        tables = {'t': mt}
-        if from_expr:
-            tables = {'postings': model.ModelTable('postings', mt.columns, mt.rows)}
-        q = random_query(rng, g, from_expr)
-        route = 'text' if rng.random() < ctx.pick(0.15, 0.1) else 'ast'
-        run_case(ctx, q, tables, route, f'random/{n}', mon, check_traces=True)
-        ctx.count('random.executed')
-        if from_expr:
-            ctx.count('random.from_expression')
-        # metamorphic: computed from that row alone
-        if rng.random() < 0.1 and mt.rows and not from_expr:
-            metamorphic(ctx, rng, q, mt)
+        random_case(ctx, n, depth, mon)
+
+
+def random_case(ctx, n, depth, mon):
+    rng = ctx.rng('random', n)
+    g = gen.ExprGen(rng, max_depth=depth, allow_params=False)
+    mt = gen.gen_table(rng, 't', max_rows=ctx.pick(8, 40))
+    from_expr = rng.random() < 0.2
+    tables = {'t': mt}
+    if from_expr:
+        tables = {'postings': model.ModelTable('postings', mt.columns, mt.rows)}
+    q = random_query(rng, g, from_expr)
+    route = 'text' if rng.random() < ctx.pick(0.15, 0.1) else 'ast'
+    run_case(ctx, q, tables, route, f'random/{n}', mon, check_traces=True)
+    ctx.count('random.executed')
+    if from_expr:
+        ctx.count('random.from_expression')
+    # metamorphic: computed from that row alone
+    if rng.random() < 0.1 and mt.rows and not from_expr:
+        metamorphic(ctx, rng, q, mt)
 
 
 def metamorphic(ctx, rng, q, mt):
@@ -353,7 +357,14 @@ def metamorphic(ctx, rng, q, mt):
 
 
 def replay(ctx, case):
-    print('replay of C01 cases: re-run with the same VERIF_SEED; case was:', case)
+    mon = monitors.install()
+    label = (case or {}).get('label', '')
+    if label.startswith('random/'):
+        random_case(ctx, int(label.split('/')[1]), ctx.pick(4, 7), mon)
+    else:
+        for idx, (lab, tables, q, traces) in enumerate(systematic_cases()):
+            if lab == label and ir.to_text(q, _LIT) == case.get('statement'):
+                run_case(ctx, q, tables, case.get('route', 'ast'), lab, mon, check_traces=traces)
 
 
 def finalize(merged):
